@@ -36,5 +36,15 @@ func (d *Dialer) DialContext(ctx context.Context, network, address string) (net.
 	if err := ctx.Err(); err != nil {
 		return nil, &net.OpError{Op: "dial", Net: network, Err: err}
 	}
+	if !d.Deadline.IsZero() && !vx.Now().Before(d.Deadline) {
+		// an absolute deadline that has passed (in virtual time): the dial fails at once, as net.Dialer's does
+		return nil, &net.OpError{Op: "dial", Net: network, Err: errTimeout{}}
+	}
 	return vx.Dial(address)
 }
+
+type errTimeout struct{}
+
+func (errTimeout) Error() string   { return "i/o timeout" }
+func (errTimeout) Timeout() bool   { return true }
+func (errTimeout) Temporary() bool { return true }
